@@ -264,6 +264,24 @@ PLANS = {
                 "distinct_nontrivial = distinct stacks with >=2 layers (or the 15-layer rejection) that passed",
         "assumptions": COMMON_ASSUMPTIONS + ["user-dictionary dic_form is '*' (known defect D18 is not part of this property's generator)"],
     },
+    "C20": lambda tier: {
+        "level": "exploration",
+        "stages": [main_stage(60, 300, tier, death_is_violation=True),
+                   main_stage(60, 300, tier, build="rel", name="rel", death_is_violation=True)],
+        "require": ["configurations_accepted", "configurations_rejected", "analyses_with_accepted_configuration", "matrix_reads_seen_by_hook",
+                    "matrix_cells_read_back", "rel.configurations_accepted", "rel.matrix_reads_seen_by_hook"],
+        "rule": "ENUMERATION of the statement's grid: matrices of 8 (thorough: 16) shapes incl. non-square ones x {SimpleOovPlugin, "
+                "RegexOovProvider, MeCab unk.def line} x leftId x rightId over {-1,0,n-1,n,n+1,m-1,m,m+1,32767,32768,65535,65536}; cost over "
+                "{-32769,-32768,-1,0,32767,32768,65535,100000}; POS present/absent x userPOS allow/forbid/omitted (also combined with an invalid "
+                "id); inhibitPair [a,b] over the same value grid. Oracle: loading returns Ok iff every id indexes the matrix in the sense analysis "
+                "uses it, the cost fits i16 and the POS exists or is allowed; never a panic; for accepted inhibit pairs exactly that cell "
+                "changed (all cells read back); for every accepted configuration texts that put the configured OOV node next to every "
+                "dictionary word are analysed and hook H2 must see no out-of-range matrix access (debug-assertion and release builds). "
+                "distinct_nontrivial = distinct grid points at a boundary (id within 1 of a matrix dimension, cost at the i16 limits, absent POS)",
+        "assumptions": COMMON_ASSUMPTIONS + ["known findings D1 (id == size accepted) and D3 (wrong dimension for non-square matrices) are "
+                                             "recognised by evaluating the pinned acceptance rule: only outcomes that differ from BOTH the "
+                                             "correct rule and the pinned rule are new violations"],
+    },
 }
 
 
